@@ -78,7 +78,7 @@ def generate(rng, tier, k):
     ftype = rng.choice((3, 5, 8))
     nchan = rng.choice((1, 1, 2, 2, 3, 4)) if rng.random() < 0.97 else rng.choice((6, 8))
     P = rng.choice((0, 0, 1, 2, 3, 5, 8))
-    M = rng.choice((0, 1, 2, 4, 4))
+    M = rng.choice((0, 1, 2, 4, 4, 3, 5, 8))
     B = rng.choice((1, 2, 3, 4, 7, 8, 16, 32, 61, 128, 256)) if rng.random() < 0.6 else rng.randrange(1, 300)
     long_run = rng.random() < 0.04
     budget = (14000 if long_run else rng.choice((200, 600, 1500, 4000))) // nchan
